@@ -195,6 +195,12 @@ class EventSeriesClimateNetwork(EventSeries, ClimateNetwork):
                                 threshold=0, directed=self.directed,
                                 **CN_kwargs)
 
+    def __cache_state__(self):
+        #  state of BOTH parent classes (the method resolution order would
+        #  otherwise hide the mutation counters of ClimateNetwork)
+        return (EventSeries.__cache_state__(self)
+                + ClimateNetwork.__cache_state__(self))
+
     def __str__(self):
         """
         Return a string representation of EventSeriesClimateNetwork.
